@@ -89,8 +89,11 @@ def updateAt {α : Type} (f : J → Outcome (J × α)) : List String → J → O
         | .panic => .panic
   | _ :: _, _ => .err .path
 
-/-- what a disclosure is built from: claim name (members) and value -/
-abbrev DiscSrc := Option String × J
+/-- what a disclosure is built from — claim name (members only) and value — and its digest -/
+structure DiscSrc where
+  key : Option String
+  value : J
+  digest : String
 
 /-- the body of `build_disclosure` once the parent is resolved: take the node out, put its digest in -/
 def hideIn (mk : Option String → J → String) (key : String) (parent : J) : Outcome (J × DiscSrc) :=
@@ -101,7 +104,7 @@ def hideIn (mk : Option String → J → String) (key : String) (parent : J) : O
     | some i =>
       match xs[i]? with
       | none => .err .path                                 -- index out of range (D8)
-      | some v => .ok (.arr (xs.set i (placeholder (mk none v))), (none, v))
+      | some v => .ok (.arr (xs.set i (placeholder (mk none v))), ⟨none, v, mk none v⟩)
   | .obj ms =>
     match aget key ms with
     | none => .err .path
@@ -111,9 +114,9 @@ def hideIn (mk : Option String → J → String) (key : String) (parent : J) : O
         let ms' := adel key ms
         let dg := mk (some key) v
         match aget "_sd" ms' with
-        | some (.arr ds) => .ok (.obj (ains "_sd" (.arr (ds ++ [.str dg])) ms'), (some key, v))
+        | some (.arr ds) => .ok (.obj (ains "_sd" (.arr (ds ++ [.str dg])) ms'), ⟨some key, v, dg⟩)
         | some _ => .err .sdType
-        | none => .ok (.obj (ains "_sd" (.arr [.str dg]) ms'), (some key, v))
+        | none => .ok (.obj (ains "_sd" (.arr [.str dg]) ms'), ⟨some key, v, dg⟩)
   | _ => .err .path
 
 /-- `build_disclosure(claims, path)` -/
